@@ -561,7 +561,7 @@ func checkC16(c *Case, trace bool) *CaseResult {
 	}
 	h1, _ := removeOps(base, drop)
 	r := rand.New(rand.NewSource(tseed(c)))
-	toggle := !sawCycle && r.Intn(3) == 0
+	toggle := !sawCycle && (r.Intn(3) == 0 || c.Kind == "diff:c16defer")
 	t, mapping, permuted := transformOrder(h1, r, toggle)
 	a := runPlain(h1, trace)
 	b := runPlain(t, trace)
@@ -712,6 +712,11 @@ func cutShortDiffers(a, b *World, mapping []int, swA, swB map[int]bool) bool {
 		}
 		rb := b.ops[mapping[k]]
 		if ra.Verdict == VOk && rb.Verdict == VOk && !swA[k] && !swB[mapping[k]] {
+			continue
+		}
+		if ra.Verdict != rb.Verdict {
+			// F23 is about an Invoke that is cut short in BOTH orders, with the same verdict, and has built
+			// different things by then; an Invoke whose verdict itself depends on the order is something else
 			continue
 		}
 		sa, sb := map[int]bool{}, map[int]bool{}
